@@ -22,7 +22,7 @@ SPEC_FUNCS = {
     "log_pos", "yielded", "exists_event", "all_events", "isinstance_",
     "truthy", "mem", "count_held", "seq", "select", "glob0", "obj", "strip",
     "split", "join", "cfg", "reaches", "no_event_between", "log_len", "the",
-    "split_ws",
+    "split_ws", "as_", "tail", "has_loop", "ordered", "count_events",
 }
 
 
@@ -73,7 +73,7 @@ class SpecMixin:
         return [self.val(st, VGhostNS())]
 
     # ------------------------------------------------------------------
-    def spec_value(self, expr, st, env, old=None, entry=None, mode="goal"):
+    def spec_value(self, expr, st, env, old=None, entry=None, mode="goal", module=None):
         """Evaluate a spec expression (string) to a value, purely."""
         if isinstance(expr, V):
             return expr
@@ -89,7 +89,10 @@ class SpecMixin:
         ctl.st = st
         self.ctl = ctl
         parent = st.cur
-        prev = st.push_frame(st.frames[parent].module if parent else "<spec>", st.frames[parent].func if parent else "<spec>", parent=parent)
+        if module is not None:
+            prev = st.push_frame(module, "<contract>", parent=None)
+        else:
+            prev = st.push_frame(st.frames[parent].module if parent else "<spec>", st.frames[parent].func if parent else "<spec>", parent=parent)
         fr = st.frame
         fr.vars.update(env)
         fr.is_spec = True
@@ -116,8 +119,8 @@ class SpecMixin:
             self._parse_cache[expr] = t
         return t
 
-    def spec_eval(self, expr, st, env, old=None, entry=None, mode="goal"):
-        v = self.spec_value(expr, st, env, old, entry, mode)
+    def spec_eval(self, expr, st, env, old=None, entry=None, mode="goal", module=None):
+        v = self.spec_value(expr, st, env, old, entry, mode, module)
         return self.truth(v, st)
 
     # ------------------------------------------------------------------
@@ -217,6 +220,40 @@ class SpecMixin:
         if name == "dom_eq":
             m1, m2 = val(a[0]), val(a[1])
             return VBool(m1.t == m2.t) if isinstance(m1, VArr) else VBool(st.map_dom(m1) == st.map_dom(m2))
+        if name == "tail":
+            # evaluate with the log restricted to the events after the last loop summary
+            idx = 0
+            for k_, e_ in enumerate(st.log):
+                if e_.tag.startswith("loop:"):
+                    idx = k_ + 1
+            saved = (getattr(ctl, "log_start", 0), set(st.log_opaque))
+            ctl.log_start = max(idx, saved[0])
+            st.log_opaque = set()
+            try:
+                return val(a[0])
+            finally:
+                ctl.log_start = saved[0]
+                st.log_opaque = saved[1]
+        if name == "has_loop":
+            start0 = getattr(ctl, "log_start", 0)
+            return VBool(any(e_.tag.startswith("loop:") for e_ in st.log[start0:]))
+        if name == "ordered":
+            # ordered(tagA, lamA, tagB, lamB): every A-event with lamA precedes every B-event with lamB
+            ta, tb = cstr(a[0]), cstr(a[2])
+            start0 = getattr(ctl, "log_start", 0)
+            lg = st.log[start0:]
+            conds = []
+            for i_, ea in enumerate(lg):
+                if ea.tag != ta:
+                    continue
+                for j_, eb in enumerate(lg):
+                    if eb.tag != tb or j_ > i_:
+                        continue
+                    conds.append(z3.Not(z3.And(self._apply_lambda(a[1], ea.args, st), self._apply_lambda(a[3], eb.args, st))))
+            return VBool(z3.And(conds) if conds else z3.BoolVal(True))
+        if name == "as_":
+            v = val(a[0])
+            return VRef(term_of(v), cstr(a[1]))
         if name == "the":
             v = val(a[0])
             return v.inner if isinstance(v, VOpt) else v
@@ -334,16 +371,23 @@ class SpecMixin:
                     continue
                 conds.append(self._apply_lambda(lam, e.args, st))
             return VBool(z3.And(conds) if conds else z3.BoolVal(True))
-        if name == "exists_event":
+        if name == "count_events":
             tag = cstr(a[0])
             self._log_visible(st, tag)
+            lam = a[1]
+            terms = [z3.If(self._apply_lambda(lam, e.args, st), 1, 0) for e in log if e.tag == tag]
+            return VInt(z3.Sum(terms) if terms else z3.IntVal(0))
+        if name == "exists_event":
+            # positive use only: a witness in the visible part of the log is enough
+            tag = cstr(a[0])
             lam = a[1]
             conds = [self._apply_lambda(lam, e.args, st) for e in log if e.tag == tag]
             return VBool(z3.Or(conds) if conds else z3.BoolVal(False))
         raise EngineError(f"spec function {name} not implemented")
 
     def _log_visible(self, st, tag):
-        if tag in st.log_opaque:
+        start = getattr(self.ctl, "log_start", 0)
+        if tag in st.log_opaque and any(e.tag.startswith("loop:") for e in st.log[start:]):
             raise EngineError(
                 f"log query on {tag!r}, but such events are hidden by a loop summary; use ghost state")
 
@@ -476,6 +520,15 @@ class VerifyMixin:
         fr = s.frame
         fr.vars.update(env)
         fr.local_names = assigned_names(fnode.body) | set(env)
+        # every declared (non-union) module global has its entry value from the start
+        for (gm, gn), gd in self.schema.globs.items():
+            if gm != "<ext>" and not isinstance(gd.T, ty.Union) and (gm, gn) not in s.globs:
+                was = self.spec
+                self.spec = True
+                try:
+                    self.glob_value(s, gm, gn)
+                finally:
+                    self.spec = was
         qual = key.split(":")[1]
         if "." in qual and "<locals>" not in qual:
             fr.cls = self.schema.src_class.get((mi.name, qual.rsplit(".", 1)[0]))
@@ -501,8 +554,11 @@ class VerifyMixin:
         for label, expr, prop in getattr(c, "at_user_call_", []):
             hooks.append(self._mk_user_hook(key, label, expr, prop, spec_env, old))
         self.user_call_hooks = hooks
+        self.at_call_hooks = [(ck, self._mk_call_hook(key, ck, label, expr, prop, spec_env, old))
+                              for ck, label, expr, prop in getattr(c, "at_call_", [])]
         outs = self.exec_block(fnode.body, s)
         self.user_call_hooks = []
+        self.at_call_hooks = []
         n = 0
         for o in outs:
             n += 1
@@ -514,8 +570,19 @@ class VerifyMixin:
             e2 = dict(env)
             e2["callee"] = fn
             g = engine.spec_eval(expr, st, e2, old=old)
-            engine.prove(st, g, f"{key}:at-user-call/{label}", prop=engine.prop_of(prop),
+            src = ""
+            if isinstance(node, ast.Call):
+                src = "@" + ast.unparse(node.func)
+            engine.prove(st, g, f"{key}:at-user-call/{label}{src}", prop=engine.prop_of(prop),
                          kind="user-call", site=engine.site(node))
+        return hook
+
+    def _mk_call_hook(self, key, callee_key, label, expr, prop, env, old):
+        def hook(engine, cenv, st, node):
+            e2 = dict(env)
+            g = engine.spec_eval(expr, st, e2, old=old)
+            engine.prove(st, g, f"{key}:at-call:{callee_key.split(':')[-1]}/{label}", prop=engine.prop_of(prop),
+                         kind="at-call", site=engine.site(node))
         return hook
 
     def check_exit(self, c, key, o, env, old, exits):
@@ -528,7 +595,7 @@ class VerifyMixin:
         if kind in ("next", "ret"):
             res = v if kind == "ret" else NONE
             e2 = dict(env)
-            e2["result"] = res
+            e2[c.result_name] = res
             self.cur_env = e2
             for label, expr, prop in c.ensures_:
                 g = self.spec_eval(expr, s, e2, old=old)
@@ -599,6 +666,8 @@ class VerifyMixin:
             if all(a.eq(b) for a, b in zip(arrs, oarrs)):
                 continue
             cls, field = hk
+            if cls == "<obj>":
+                continue        # allocation metadata, written at fresh addresses only
             if cls.startswith("dict[") and field in ("dom", "val", "len"):
                 allow = allowed_maps.get(cls, [])
             elif cls.startswith("list[") and field == "items":
